@@ -222,6 +222,32 @@ def run(ctx):
                               "SWAN round trip (%s, ntime=%s%s): %s" % (layout, ntime, ", gz" if gz else "", msg), {"layout": layout, "sizes": dict(ds.sizes)})
             if not probs:
                 ctx.replayed()
+        # the same pair on spectra of very different magnitude in one file (a sheltered station next to an exposed one): one FACTOR
+        # per spectrum means every spectrum comes back to half a count of ITS OWN peak, however small the peak is
+        for k in range(4 if ctx.quick else 30):
+            layout = ("site", 4)
+            ds = make_dataset(rng, layout, 2, 3, 4, ("data",), time_step=3600)
+            scales = np.array([1.0, 1e-3, 1e-6, 1e-9]) if k % 2 == 0 else np.array([1e-9, 1e3, 1e-5, 1.0])
+            ds["efth"] = ds.efth * scales[None, :, None, None]
+            path = os.path.join(tmp, "m%d.spec" % k)
+            ctx.case(("swan-magnitudes", k), True)
+            try:
+                ds.spec.to_swan(path)
+                back = read_swan(path)
+                peak = np.max(ds.efth.values, axis=(-2, -1), keepdims=True)
+                err = np.abs(back.efth.transpose("time", "site", "freq", "dir").values - ds.efth.values) / peak
+                ok = bool(np.all(err <= 0.5001 / 9998.0))
+            except Exception as ex:  # noqa
+                ctx.violation({"format": "swan", "clause": "magnitudes", "raised": type(ex).__name__}, "SWAN round trip of mixed magnitudes raised %s" % type(ex).__name__,
+                              {"err": str(ex)[:200]})
+                continue
+            if ok:
+                ctx.replayed()
+            else:
+                w = np.unravel_index(np.argmax(err), err.shape)
+                ctx.violation({"format": "swan", "clause": "magnitudes"},
+                              "SWAN round trip: the spectrum at site %d (peak %.3g) comes back %.3g of its own peak off (half a count is %.3g)" %
+                              (w[1], float(peak[w[0], w[1], 0, 0]), float(err[w]), 0.5 / 9998), {"scales": scales.tolist()})
         fd, tpath = tempfile.mkstemp(prefix="swantrace-", suffix=".ndjson", dir=tmp)
         with os.fdopen(fd, "w") as fh:
             for ln in trace:
